@@ -25,6 +25,17 @@ pub const CASE_LEN: &[char] = &['\u{390}', '\u{149}', '\u{17f}', '\u{131}', '\u{
 pub const CASE_LEN_STRINGS: &[&str] = &["\u{390}\u{390}\u{390}", "\u{fb01}\u{fb01}é", "\u{149}", "\u{17f}", "I\u{130}\u{131}i", "stra\u{df}e", "\u{1e9e}x",
     "a\u{fb03}x \u{390}", "\u{17f}\u{17f}\u{17f}\u{17f}", "\u{2c65}\u{149}\u{149}"];
 
+/// backslashes in literals: the grammars have no escapes (a literal ends at the next quote), the tokenizer
+/// pre-pass reads `\"` as an escaped quote — literals ending in a backslash, runs of backslashes
+pub const BACKSLASH_STRINGS: &[&str] = &["C:\\tmp\\", "\\\\srv\\share\\", "host\\", "\\", "\\\\", "a\\\\\\", "x\\y", "\\n", "dir\\ ", "tab\\t\\", "é\\"];
+pub fn backslash_string(r: &mut Rng) -> String {
+    if r.chance(2, 3) { return r.pick(BACKSLASH_STRINGS).to_string(); }
+    let n = r.below(5);
+    let mut t: String = (0..n).map(|_| *r.pick(&['a', '\\', ' ', 'Z', '/', ':', 'é'])).collect();
+    for _ in 0..r.below(4) { t.push('\\'); }
+    t
+}
+
 /// a string literal with 1–4 such characters among ordinary ones
 pub fn caselen_string(r: &mut Rng) -> String {
     if r.chance(1, 2) { return r.pick(CASE_LEN_STRINGS).to_string(); }
@@ -55,6 +66,8 @@ pub fn field(r: &mut Rng, hazard_pct: u64) -> String {
 pub fn string(r: &mut Rng) -> String {
     if r.chance(1, 7) {
         caselen_string(r)
+    } else if r.chance(1, 7) {
+        backslash_string(r)
     } else if r.chance(1, 6) {
         let n = r.below(6);
         (0..n).map(|_| *r.pick(&['a', ' ', 'é', '1', '(', ')', '=', '\'', 'Z', '\t', '-', '.'])).collect()
